@@ -967,6 +967,10 @@ class Namespace(Model):
       raise PyRaise(ExcVal('KeyError', (name,)))
     if name in self.attrs:
       return self.attrs[name]
+    if name == 'get' and self.item_access:
+      # dict-like settings object: settings.get(key[, default])
+      from .values import Builtin
+      return Builtin(self.name + '.get', lambda ip2, a, k: self.py_get(ip2, *a))
     raise EngineError("%s.%s is not declared by the harness" % (self.name, name))
 
   def py_setattr(self, ip, name, value):
@@ -979,8 +983,12 @@ class Namespace(Model):
     return self.py_getattr(ip, k)
 
   def py_get(self, ip, k, default=None):
+    if isinstance(k, str) and k in getattr(self, 'missing', ()):
+      return default
     if isinstance(k, str) and k in self.attrs:
       return self.attrs[k]
+    if isinstance(k, str) and self.item_access:
+      raise EngineError("%s.get(%r) is not declared by the harness" % (self.name, k))
     return default
 
 
